@@ -17,7 +17,9 @@ chk("C12",
     "a copy is only started when it fits and that len equals the total length of the accepted chunks (spec/write/WriteProof.tla, "
     "32 obligations); every TLC-enumerated behaviour is replayed state-by-state on the real diplomat-runtime (caller-supplied writer "
     "built as a C caller would, fixed writer) through write_str and write_char, and seeded random runs of the real runtime "
-    "(incl. the Rust-owned writer with allocation accounting from create to destroy) are validated as traces by Trace_Write.tla.",
+    "(incl. the Rust-owned writer with allocation accounting from create to destroy) are validated as traces by Trace_Write.tla. The same machine is observed through the GENERATED API: a real bridge whose Rust body logs every write is driven through the "
+    "generated C++ method (std::string writer) and C method (diplomat_buffer_write_*) under ASan, and the log including the string "
+    "handed back to the caller (Returned event) must be a behaviour of Write.tla (kind cpp_string grows to exactly the requested length).",
     "Bounds: chunks of 0-4 bytes, <=4(5) writes, capacities <=8(12). Trusts TLC, rustc, the harness's canary zones "
     "(ASan in the C/C++ leg). Vec/std::string allocation failure aborts and is out of scope.",
     "TLA+ spec + TLC exhaustive model checking + TLAPS proof of the core invariant; spec->impl behaviour replay; impl->spec trace validation",
@@ -28,7 +30,9 @@ chk("C16",
     "length 4 (quick) / 5 (thorough) and that the classes partition 0..255, then emits the transition table, which the harness "
     "executes as data against the exported diplomat_is_str over ALL byte strings of length <=3 (and NULL+0), ALL 4-byte strings with lead "
     "F0..F7 and seeded near-valid mutations. SliceView.tla models export/NULL/deref/import/drop of the five view kinds over whole "
-    "buffers and sub-ranges of a live buffer (incl. the empty range with a real pointer); every "
+    "buffers and sub-ranges of a live buffer (incl. the empty range with a real pointer), owned views built by foreign code in "
+    "diplomat_alloc memory, and diplomat_alloc/diplomat_free as a pair for n >= 0 elements (a strict allocator window counts the "
+    "release of a pointer that was never handed out); every "
     "TLC-enumerated behaviour is replayed on the real runtime types for 12 element types with pointer class, length, contents "
     "and allocation-release counts compared after each step. Two negative models must be refuted.",
     "Trusts TLC, rustc, Unicode Table 3-7 as transcribed, the quarantining allocator of the harness. UB checks of the standard "
@@ -53,8 +57,8 @@ chk("C05",
     "spec/gate/Gate.tla states the lowering gate twice -- a declarative rule set over every (occurrence, context) pair written "
     "from the book and the property, and an operational walk shaped like lower_type/lower_out_type/lower_return_type -- and TLC "
     "checks they agree (verdict, demanded backend features, every rejection explained by a named rule) on every (position, "
-    "type tree) of the grammar: 22 leaf kinds x ref/mutref/box/Option(std|Diplomat)/Result, 9 positions, depth 1 (quick, ~1.1k "
-    "cases) / depth 2 (thorough, ~11k cases); two negative models must be refuted. Every emitted case is rendered to a bridge "
+    "type tree) of the grammar: 22 leaf kinds x ref/mutref/box/Option(std|Diplomat)/Result, 9 positions, depth 2 (quick, ~14k "
+    "cases) / depth 3 (thorough, ~40k cases); two negative models must be refuted. Every emitted case is rendered to a bridge "
     "module and lowered by the real diplomat_core for each distinct probed backend profile and both settings of "
     "unsafe_references_in_callbacks; verdicts must match, and error contexts of rejected cases must name the offending "
     "Type / Type::method. Disagreements are re-run in isolation before being reported.",
@@ -73,7 +77,9 @@ chk("C13",
     "End to end, for disable and rename at each of the 4 placements and sampled formulas, all 7 backends are run by the real "
     "binary: the output tree must be byte-identical to the unconditional-attribute output iff the formula holds for that backend "
     "and to the attribute-free output otherwise; disabled items' files and symbol references must be absent, renames rendered in "
-    "cpp/js/dart/nanobind and never inherited module->method; nm of the compiled crate shows every function still exported.",
+    "cpp/js/dart/nanobind and never inherited module->method; nm of the compiled crate shows every function still exported. "
+    "`Remaining` (a disabled item leaves no trace): for a disabled comparison, iterator, stringifier and a method with a signature "
+    "half of the backends cannot lower, each backend's output must equal that of the program in which the method was never written.",
     "Backend name sets are fixed from the book and checked against the probe; option/callbacks/traits/static_slices support "
     "is cross-checked against observed acceptance behaviour; other support flags are taken from the probe. demo_gen's bundled "
     "js/ subtree is the js backend's output and follows the js truth value.",
@@ -102,7 +108,8 @@ chk("C15",
     "are recorded as Lower/Generate events and validated by Trace_Pipeline.tla. Programs: every shape the Gate spec accepts for "
     "each backend's probed profile (TLC-enumerated, depth 1 quick / depth 2 thorough), hand-listed combination families "
     "(optional/borrowed inputs x borrowing returns, write + result, unit and ZST arms, 'static, slices of strings, owned slices) "
-    "x 7 backends x config variants (js.abi legacy/spec, kotlin finalizers, lib_name). Lowering success is established "
+    "x 7 backends x config variants (js.abi legacy/spec, kotlin finalizers, lib_name, demo_gen explicit_generation / "
+    "hide_default_renderer / module_name), special-method markers accepted by Special.tla, demo attributes. Lowering success is established "
     "in-process with the probed profile; a panic of the binary afterwards is bisected to single shapes and reported by panic "
     "site, message and shape.",
     "Required config is always supplied; 128-bit integers are excluded as documented. Ten classes of genuine crashes found on "
@@ -119,7 +126,8 @@ chk("C14",
     "refutes the negative model that allows swapping impl blocks of one type. TLC-simulated edit histories are then replayed on a "
     "real source file: after every step all 7 backends run in fresh processes (fresh hash seeds) and the output trees must be "
     "byte-identical as the action's frame condition demands (all files; or all files except the inserted type's and the per-crate "
-    "aggregate files).",
+    "aggregate files). A separate step inserts a whole bridge module whose enum, struct and opaque are NAMED like base-program "
+    "types (told apart by namespace or rename): every base file must be reproduced byte for byte.",
     "3-type base program (opaque, struct, enum across two bridge modules) + 2 unrelated types + 5 kinds of non-bridge items; "
     "12 (150) histories of 6 steps. Aggregate files are exempt only for insert/remove.",
     "TLA+ spec + TLC (action properties) ; spec->impl replay of TLC-generated edit histories through the real binary",
@@ -133,7 +141,10 @@ chk("C17",
     "(spec/config/ConfigProof.tla, 35 obligations). Each assignment is replayed through the real binary (config.toml "
     "in kebab and snake case, --config, #[diplomat::config]) for lib_name (kotlin, nanobind), unsafe_references_in_callbacks (c, "
     "cpp, kotlin, nanobind), kotlin.domain, js.abi and demo_gen.module_name; the effective value is read from the generated "
-    "output (Native.load name, package path, <lib>_ext.cpp, acceptance of callback references, legacy-vs-spec JS, import path).",
+    "output (Native.load name, package path, <lib>_ext.cpp, acceptance of callback references, legacy-vs-spec JS, import path). "
+    "spec/config/ConfigKeys.tla adds two DIFFERENT keys of one backend (KeysIndependent: assigning one key never changes another; "
+    "negative model refuted) and all 64 assignments are replayed for demo_gen.relative_js_path+module_name and "
+    "kotlin.domain+lib_name, with both command-line orders.",
     "Distinct values per source make the winner observable; two-valued settings are run once per candidate winner. A required key "
     "left unset ends the run with 'Missing required field' (usage error).",
     "TLA+ spec + TLC; spec->impl replay of every assignment through the real binary",
@@ -228,10 +239,11 @@ chk("C11",
     "PositionIffContiguous (the fast path is sound exactly for enums numbered 0..n-1 in order) and refutes a contiguity test that "
     "forgets the start at 0. Each enum is compiled with the real macro: `V as i32` printed by the crate is the ground truth and "
     "must equal the spec; the gcc-compiled header constants and a round trip through the exported function, g++ Value/AsFFI/"
-    "FromFFI/method round trip, the JS module executed in node (ffiValue, name, lookup by number, method round trip) must agree; "
+    "FromFFI/method round trip, the JS module executed in node (ffiValue, name, lookup by number, method round trip by value and "
+    "Option<Self> read back from wasm memory) must agree; "
     "for dart, kotlin and nanobind the tables and the chosen scheme are parsed from the generated text and interpreted by the "
     "spec's scheme model (position scheme only where Contiguous holds).",
-    "Dart, Kotlin and Python are not executed. JS runs with a stub wasm module (identity exports).",
+    "Dart, Kotlin and Python are not executed. JS runs with a stub wasm module (identity exports; `opt` writes Some(v) into the receive buffer).",
     "TLA+ spec + TLC; spec->impl replay compiled/executed (rustc, gcc, g++, node) and scheme interpretation for dart/kotlin/nanobind",
     "DESIGN.md §5 C11")
 
